@@ -234,5 +234,6 @@ theorem decSigBlockV1_encode (sg ch : Bytes) (hsg : sg.length < 2 ^ 32) (hch : c
     structArr_cons _ _ _ _ _ _ _ _ _ (fieldVal_bin _ _ _ (fun (b : SigBlock) (c : Bytes) => ({ b with sig := c } : SigBlock)) zeroSigBlock sg hsg _),
     structArr_cons _ _ _ _ _ _ _ _ _ (fieldVal_bin _ _ _ (fun (b : SigBlock) (c : Bytes) => ({ b with chunk := c } : SigBlock)) _ ch hch _),
     structArr_extras fuel 99 ex hex.wf _ r hfuel hex.depth]
+  rfl
 
 end Saltpack.Proofs.CodecP
